@@ -907,6 +907,63 @@ def param_eval_queries(ctx, strings):
     db.disconnect()
 
 
+def temporal_values(ctx):
+    """Value.__str__ / SQLiteValue / MySQLValue for dates, datetimes, times, timedeltas and ints (all Value classes x five styles) vs
+    temporalStr / intStr; the model's readers (parseDate/Time/Timestamp/Interval, lexInt) applied to the REAL emitted text must give back
+    the value supplied"""
+    if not ctx.driver.ok: return
+    rng = ctx.rng; vcs = value_classes()
+    dates = [date(1, 1, 1), date(9999, 12, 31), date(2020, 2, 29), date(1999, 12, 31), date(2020, 1, 2), date(987, 6, 5)]
+    times = [time(0, 0), time(23, 59, 59, 999999), time(3, 4, 5), time(3, 4, 5, 6), time(12, 0, 0, 100000), time(0, 0, 0, 1)]
+    dts = [datetime(2020, 1, 2, 3, 4, 5, 6), datetime(2020, 1, 2, 3, 4, 5), datetime(1, 1, 1), datetime(9999, 12, 31, 23, 59, 59, 999999), datetime(2020, 2, 29, 0, 0, 0, 10)]
+    tds = [timedelta(0), timedelta(1, 2, 3), timedelta(seconds=-1), timedelta(microseconds=-1), timedelta(days=-1), timedelta(days=-3, seconds=5, microseconds=7),
+           timedelta(days=100, microseconds=1), timedelta(hours=5), timedelta(days=999999999), timedelta(days=-999999999), timedelta(seconds=59), timedelta(seconds=3600), timedelta(microseconds=999999)]
+    for _ in range(ctx.scale(20, 400)):
+        dates.append(date(rng.randrange(1, 10000), rng.randrange(1, 13), rng.randrange(1, 29)))
+        times.append(time(rng.randrange(24), rng.randrange(60), rng.randrange(60), rng.choice([0, rng.randrange(10 ** 6)])))
+        dts.append(datetime(rng.randrange(1, 10000), rng.randrange(1, 13), rng.randrange(1, 29), rng.randrange(24), rng.randrange(60), rng.randrange(60), rng.choice([0, rng.randrange(10 ** 6)])))
+        tds.append(timedelta(days=rng.choice([0, 1, -1, rng.randrange(-5000, 5000)]), seconds=rng.randrange(86400), microseconds=rng.choice([0, rng.randrange(10 ** 6)])))
+    items = [('date', v, [v.year, v.month, v.day], None) for v in dates]
+    items += [('time', v, [v.hour, v.minute, v.second, v.microsecond], None) for v in times]
+    items += [('datetime', v, [v.year, v.month, v.day, v.hour, v.minute, v.second, v.microsecond], None) for v in dts]
+    items += [('delta', v, [v.seconds, v.microseconds], v.days) for v in tds]
+    reqs = []; meta = []
+    for kind, v, f, days in items:
+        for dialect, vc in vcs.items():
+            if dialect == 'generic': continue
+            for style in STYLES:
+                real = str(vc(style, v))
+                inner = real[real.index("'") + 1: real.rindex("'")] if "'" in real else ''
+                r = {'op': 'temporal', 'dialect': dialect, 'style': style, 'kind': kind, 'f': f, 'real_inner': inner.replace('%%', '%') if style in PERCENT else inner}
+                if days is not None: r['days'] = days
+                reqs.append(r); meta.append((kind, v, f, days, dialect, style, real))
+    for (kind, v, f, days, dialect, style, real), out in zip(meta, ctx.driver('C06', reqs)):
+        ctx.case(['temporal', kind, dialect, style, repr(v)], kind='temporal:%s:%s' % (kind, dialect))
+        if out.get('text') is None:
+            ctx.count('temporal:not-modelled:%s:%s' % (kind, dialect))      # SQLite timedelta = repr(float days): covered by the query oracle
+            continue
+        if out['text'] != real:
+            ctx.divergence('temporalStr differs from the real Value.__str__', [kind, dialect, style, repr(v)], model=out['text'], impl=real)
+        exp = ((days * 86400 + f[0]) * 10 ** 6 + f[1]) if kind == 'delta' else f
+        if out['readback'] != exp:
+            # the oracle DESIGN names for the dialects without a server here: the dialect reader (proved inverse of the model renderer,
+            # C06_*_readback) applied to the text the REAL code emitted
+            ctx.violation('an inline %s literal does not denote the value supplied: the text really emitted reads back as a different value' % kind,
+                          {'kind': kind, 'value_class': dialect, 'style': style, 'value': repr(v), 'emitted': real},
+                          observed=out['readback'], expected=exp, key='temporal-readback:%s:%s' % (kind, 'sqlite' if dialect == 'sqlite' else 'standard'))
+    # integers: every Value class renders str(int); the numeric lexer must read it back in front of ordinary SQL text
+    ints = [0, 1, -1, 9, 10, -10, 99, 100, 2 ** 31, -2 ** 63, 2 ** 63 - 1, 10 ** 30, -10 ** 30] + [rng.randrange(-10 ** 18, 10 ** 18) for _ in range(ctx.scale(30, 600))]
+    reqs = []; meta = []
+    for v in ints:
+        for tail in ('', ' AND', ')', ', 1'):
+            real = str(Value('qmark', v)) + tail
+            reqs.append({'op': 'lex_int', 'text': real}); meta.append((v, tail, real))
+    for (v, tail, real), out in zip(meta, ctx.driver('C06', reqs)):
+        ctx.case(['lex-int', v, tail], kind='lex-int')
+        if not out or out['value'] != v or out['rest'] != tail:
+            ctx.divergence('lexInt does not read back a real integer literal', [v, real], model=out, impl=[v, tail])
+
+
 def canon_occ(occ):
     m = {}
     return [m.setdefault(k, len(m)) for k in occ]
@@ -922,7 +979,7 @@ def run(ctx):
     for name, f in [('literals', lambda: literals(ctx, strings)), ('mysql_witness', lambda: mysql_witness(ctx)), ('other_values', lambda: other_values(ctx)),
                     ('identifiers', lambda: identifiers(ctx, strings)), ('like_model_vs_sqlite', lambda: like_model_vs_sqlite(ctx)),
                     ('like_queries', lambda: like_queries(ctx, strings)), ('statements', lambda: statements(ctx, strings)),
-                    ('builder_text_tie', lambda: builder_text_tie(ctx)), ('structure', lambda: structure(ctx, strings)), ('typed_constants', lambda: typed_constants(ctx)), ('param_eval_queries', lambda: param_eval_queries(ctx, strings))]:
+                    ('builder_text_tie', lambda: builder_text_tie(ctx)), ('structure', lambda: structure(ctx, strings)), ('typed_constants', lambda: typed_constants(ctx)), ('param_eval_queries', lambda: param_eval_queries(ctx, strings)), ('temporal_values', lambda: temporal_values(ctx))]:
         t0 = _t.time(); f(); timings[name] = round(_t.time() - t0, 2)
 
 
